@@ -1,5 +1,6 @@
 // C16 : trajectory builder call sequences; C12 : RTH entry conversion
 #include "sbh_common.hpp"
+#include <cmath>
 extern "C" {
 #include <skybrush/rth_plan.h>
 #include <skybrush/trajectory.h>
@@ -77,6 +78,19 @@ SB_OP(bld)
             std::string s = std::to_string((int)rc);
             if (rc == SB_SUCCESS) {
                 s += ":" + hex(SB_BUFFER(tr.buffer), sb_buffer_size(&tr.buffer)) + ":" + bufhex(&b) + ":" + std::to_string(sb_trajectory_get_total_duration_msec(&tr));
+                // where the finished trajectory starts and ends (read back through a player)
+                sb_trajectory_player_t pl;
+                if (sb_trajectory_player_init(&pl, &tr) == SB_SUCCESS) {
+                    const float probes[2] = { 0.0f, INFINITY };
+                    for (float pt : probes) {
+                        sb_vector3_with_yaw_t r = { 0, 0, 0, 0 };
+                        sb_error_t prc = sb_trajectory_player_get_position_at(&pl, pt, &r);
+                        s += ":" + std::to_string((int)prc) + "," + std::to_string(f2b(r.x)) + "," + std::to_string(f2b(r.y)) + ","
+                            + std::to_string(f2b(r.z)) + "," + std::to_string(f2b(r.yaw));
+                    }
+                    sb_trajectory_player_destroy(&pl);
+                } else
+                    s += ":playerinit";
                 sb_trajectory_destroy(&tr);
             }
             add(out, s);
